@@ -263,7 +263,35 @@ fn terminal(out: &mut Out, planner: &mut Planner, version: &str, thorough: bool)
 		(vec!["-tt"], false),
 		(vec![], false),
 	];
-	let operands: Vec<Vec<&str>> = vec![vec![], vec!["a.json"], vec!["-"], vec!["a.json", "b.yaml"], vec!["missing.json"], vec!["bad.json"], vec!["a.json", "-h"], vec!["-x"]];
+	let operands: Vec<Vec<&str>> = vec![
+		vec![],
+		vec!["a.json"],
+		vec!["-"],
+		vec!["a.json", "b.yaml"],
+		vec!["missing.json"],
+		vec!["bad.json"],
+		vec!["a.json", "-h"],
+		vec!["-x"],
+		vec!["--help"],
+		vec!["-V"],
+		vec!["a.json", "--version"],
+		vec!["--bogus", "a.json"],
+		vec!["-f", "nope", "a.json"],
+		vec!["a.json", "-f"],
+		vec!["-ty"],
+	];
+	// what the rest of the command line makes of it, whatever -t says: 0 = a
+	// help / version request, 2 = invalid
+	let class_of = |ops: &Vec<&str>, t: &Vec<&str>| -> Option<u8> {
+		if ops.iter().any(|a| ["-x", "--bogus", "nope"].contains(a)) || ops.last() == Some(&"-f") || (ops.contains(&"-ty") && !t.is_empty()) {
+			Some(2)
+		} else if ops.iter().any(|a| ["-h", "--help", "-V", "--version"].contains(a)) {
+			Some(0)
+		} else {
+			None
+		}
+	};
+	let mut classes = vec![];
 	for (t, m) in &targets {
 		for ops in &operands {
 			for order in 0..2 {
@@ -275,17 +303,44 @@ fn terminal(out: &mut Out, planner: &mut Planner, version: &str, thorough: bool)
 					args.extend(ops.iter().map(|s| s.to_string()));
 					args.extend(t.iter().map(|s| s.to_string()));
 				}
+				if t.contains(&"-fj") && ops.contains(&"-f") {
+					continue; // a second -f: covered by the repeated-option matrix
+				}
 				for dbg in if thorough { vec![false, true] } else { vec![false] } {
 					specs.push(spec_for(&args, StdoutMode::Pty, dbg));
-					is_msgpack.push(*m && !ops.contains(&"-h") && !ops.contains(&"-x"));
+					let class = class_of(ops, t);
+					is_msgpack.push(*m && class.is_none());
+					classes.push(class);
 				}
 			}
 		}
 	}
 	let results = run_cases(out, planner, version, &specs);
-	for (r, m) in results.iter().zip(is_msgpack) {
+	for ((r, m), class) in results.iter().zip(is_msgpack).zip(classes) {
 		check_discipline(out, r);
 		let o = &r.observed;
+		if let Some(class) = class {
+			// an invalid command line is invalid, and a help request is a help
+			// request, on a terminal too and wherever -t stands
+			out.eval("constructed_class_tty", &r.spec.describe(), true);
+			let stderr = String::from_utf8_lossy(&o.stderr).into_owned();
+			let ok = match class {
+				2 => o.status == Status::Exit(2) && o.stdout.is_empty() && stderr.starts_with("xt error") && stderr.contains("Usage:"),
+				_ => o.status == Status::Exit(0) && o.stderr.is_empty() && (o.stdout.starts_with(b"Usage: xt ") || o.stdout.starts_with(b"xt ")),
+			};
+			if !ok {
+				out.fail(
+					"constructed_class",
+					"",
+					format!(
+						"stdout a pseudo-terminal, a command line that is {}: {} => {}",
+						if class == 2 { "invalid (expected exit 2, usage on stderr, nothing on stdout)" } else { "a help/version request (expected exit 0 with the text)" },
+						r.spec.describe(),
+						describe(o)
+					),
+				);
+			}
+		}
 		out.eval("msgpack_never_to_tty", &r.spec.describe(), m);
 		if m && !(o.stdout.is_empty() && o.status == Status::Exit(1) && o.stderr == b"xt error: refusing to output MessagePack to a terminal\n") {
 			out.fail("msgpack_never_to_tty", "", format!("target MessagePack with stdout a pseudo-terminal: {} => {}", r.spec.describe(), describe(o)));
